@@ -85,6 +85,10 @@ def main(ctx, replay=None):
         for n in range(nruns):
             ds = system_dataset(rng, exports, str(rng.choice(fillspec.SYSTEMS)), lattice=bool(n % 2)) if n % 3 == 0 else free_dataset(rng, extra_shear=int(rng.integers(0, 6)), lattice=bool(n % 2))
             ds.settings.update({"NT": int(rng.integers(3, 7)), "NTV": int(rng.integers(8, 16))})
+            if n % 3 == 1:
+                ds.settings["NT"] = ds.settings["NTV"] - 4        # QHA's internal temperature grid (NT + 4 rows) as long as the volume grid
+            elif n % 3 == 2:
+                ds.settings["NT"] = ds.settings["NTV"]            # square (T, V) arrays
             d = wd.sub(f"run{n}")
             lo, hi = ds.fit_pressure_window(d)
             ds2 = None
